@@ -143,6 +143,27 @@ fn main() {
             o["minimise_candidates"] = serde_json::json!(tried);
             std::fs::write(out, serde_json::to_string_pretty(&o).unwrap()).unwrap();
         }
+        Some("exec") => {
+            // debugging aid: execute original, DP and every pre-noise relation under the neutral plan
+            let file = arg(&args, "--file").expect("--file");
+            let v: serde_json::Value = serde_json::from_str(&std::fs::read_to_string(file).unwrap()).unwrap();
+            let sc: Scenario = serde_json::from_value(v["scenario"].clone()).expect("scenario");
+            let c = pipeline::compile(&sc).map_err(|e| format!("{:?}", e)).unwrap();
+            let tabs: Vec<&scenario::TableSpec> = sc.tables.iter().chain(sc.synthetic.iter()).collect();
+            let mut eng = engine::Engine::new(&tabs).unwrap();
+            let plan = engine::DrawPlan::neutral(sc.engine_seed).release_all().with_cap(engine::DrawMode::Inc).with_row_id(engine::DrawMode::Inc);
+            println!("original: {:?}", eng.query(&sc.sql, &plan).map(|x| x.0.rows));
+            println!("dp: {:?}", eng.query(&pipeline::render(&c.dp), &plan).map(|x| x.0.rows));
+            let scan = ir::scan(&c.dp);
+            for m in &scan.noise_maps {
+                let r = eng.query(&pipeline::render(&m.input), &plan).map(|x| (x.0.columns, x.0.rows));
+                println!("pre-noise of {:?}: {:?}", m.cols.iter().map(|c| (c.name.clone(), c.sigma, c.clamp)).collect::<Vec<_>>(), r);
+            }
+            for sm in ir::scale_maps(&c.dp) {
+                let r = eng.query(&pipeline::render(&sm.map), &plan).map(|x| (x.0.columns, x.0.rows));
+                println!("scale factors {:?}: {:?}", sm.factors, r);
+            }
+        }
         Some("ir") => {
             let file = arg(&args, "--file").expect("--file");
             let v: serde_json::Value = serde_json::from_str(&std::fs::read_to_string(file).unwrap()).unwrap();
